@@ -23,6 +23,8 @@ TREE = {
     "inc2.mac": ".byte 7\n.byte 10\n.byte 11\n",
     "incinc.mac": ".byte 1\n.include \"inc2.mac\"\n.even\n",
     "incdeep.mac": ".include \"incinc.mac\"\n.byte 2\n",
+    # a chunk that is still pending when it is first met, followed by text: the block's length is a sum over mixed chunk kinds
+    "incpa.mac": ".byte zq\n.ascii \"abcd\"\n.asciz \"e\"\nzq = 3\n",
 }
 
 
@@ -89,6 +91,8 @@ def kinds():
                              "exp": (lambda addr: b"\x01\x07\x08\x09" + pad_to(addr + 4, 2))}
     K["incdeep"] = lambda i: {"text": ".include \"incdeep.mac\"", "defs": [],
                               "exp": (lambda addr: b"\x01\x07\x08\x09" + pad_to(addr + 4, 2) + b"\x02")}
+    K["incpa"] = lambda i: {"text": ".include \"incpa.mac\"", "exp": (lambda addr: b"\x03abcde\x00"), "defs": []}
+    K["reppa"] = lambda i: {"text": ".repeat 2 { .byte fz%d\n .ascii \"ab\" }" % i, "exp": (lambda addr: b"\x03ab" * 2), "defs": ["fz%d = 3" % i]}
     # file names with a <n> chunk that is only known later: the statement cannot be carried out when it is first met
     K["incf"] = lambda i: {"text": ".include \"inc\" <fc%d> \".mac\"" % i, "exp": (lambda addr: b"\x07\x08\x09"), "defs": ["fc%d = 62" % i]}
     K["insf"] = lambda i: {"text": "insert_file \"f\" <fi%d> \".bin\"" % i, "exp": (lambda addr: b"\x01\x02\x03\x04\x05"), "defs": ["fi%d = 65" % i]}
@@ -107,7 +111,7 @@ def kinds():
 KINDS = kinds()
 ORDER = ["nop", "mov4", "mov6", "byte1", "byte3", "word", "dword", "wlist", "worddot", "word0", "dword0", "byte0", "ascii2", "ascii3", "asciz2", "rad50",
          "blkb3", "blkw2", "blkbf", "blkwf", "even", "odd", "align4", "alignf", "skip5", "skipf",
-         "rep2nop", "repeven", "repf", "rep3even", "rep4dot", "ins0", "ins5", "inc2", "incinc", "incdeep", "incf", "insf", "label", "assign"]
+         "rep2nop", "repeven", "repf", "rep3even", "rep4dot", "ins0", "ins5", "inc2", "incinc", "incdeep", "incpa", "reppa", "incf", "insf", "label", "assign"]
 assert set(ORDER) == set(KINDS)
 
 
